@@ -188,6 +188,13 @@ impl Prop for C05 {
 
     fn run_case(&mut self, cx: &CaseCx, out: &mut Out) {
         let mut r = xo(cx.seed);
+        if r.chance(1, 64) {
+            out.evaluations += 1;
+            if let Err((sig, msg)) = run_fraction_point(&mut r, out) {
+                out.violation(sig, msg, json!({"directed": "fraction limit driven to a delicate point"}));
+            }
+            return;
+        }
         let mut cfg = MCfg::wild();
         if r.chance(1, 3) {
             cfg.profile = crate::gen::Profile::Dyadic;
@@ -236,6 +243,72 @@ impl Prop for C05 {
     fn finish(&mut self, out: &mut Out) {
         out.add("distinct_framework_states_seen_per_shard", self.states.len() as u64);
     }
+}
+
+/// (limit, padding packets, all packets) with padding/all == limit as rationals (limit = k/1000) for which
+/// the quotient form `p / t >= limit` and the product form `p >= limit * t` of the same comparison
+/// disagree in f64: the points where the way the fraction is computed matters.
+fn delicate_fraction_points() -> &'static Vec<(f64, u64, u64)> {
+    static T: std::sync::OnceLock<Vec<(f64, u64, u64)>> = std::sync::OnceLock::new();
+    T.get_or_init(|| {
+        let mut v = vec![];
+        for k in 1..1000u64 {
+            let l = k as f64 / 1000.0;
+            for t in 1..=250u64 {
+                if (k * t) % 1000 != 0 {
+                    continue;
+                }
+                let p = k * t / 1000;
+                let quotient = p as f64 / t as f64 >= l;
+                let product = p as f64 >= l * t as f64;
+                let product2 = p as f64 * (1.0 / t as f64) >= l;
+                if quotient != product || quotient != product2 {
+                    v.push((l, p, t));
+                }
+            }
+        }
+        v
+    })
+}
+
+/// A padding (or blocking) machine driven exactly to one of the delicate points of its fraction limit.
+fn run_fraction_point(r: &mut Xo, out: &mut Out) -> Result<(), (String, String)> {
+    use enum_map::enum_map;
+    use maybenot::action::Action;
+    use maybenot::state::{State, Trans};
+    let pts = delicate_fraction_points();
+    if pts.is_empty() {
+        return Ok(());
+    }
+    let (l, p, t) = pts[r.below(pts.len() as u64) as usize];
+    let mut s0 = State::new(enum_map! { _ => vec![Trans(0, 1.0)] });
+    s0.action = Some(Action::SendPadding {
+        bypass: false,
+        replace: false,
+        timeout: crate::gen::constant(5.0),
+        limit: None,
+    });
+    let machine_limit = r.chance(1, 2);
+    let m = Machine::new(0, if machine_limit { l } else { 0.0 }, 0, 0.0, vec![s0]).map_err(|e| ("C05/construction".to_string(), format!("{e}")))?;
+    let machines = [m];
+    let pf = if machine_limit { 0.0 } else { l };
+    let start = VClock(1 << 40);
+    let mut ls = Lockstep::new(&machines, pf, 0.0, start, ScriptRng::fair(7)).map_err(|m| ("C05/construction".to_string(), m))?;
+    // p PaddingSent and t - p NormalSent in a random order, then events that leave the counts alone
+    let mut evs: Vec<TriggerEvent> = (0..p).map(|_| TriggerEvent::PaddingSent { machine: maybenot::MachineId::from_raw(0) }).collect();
+    evs.extend((0..t - p).map(|_| TriggerEvent::NormalSent));
+    for i in (1..evs.len()).rev() {
+        let j = r.below(i as u64 + 1) as usize;
+        evs.swap(i, j);
+    }
+    evs.push(TriggerEvent::NormalRecv);
+    evs.push(TriggerEvent::TunnelRecv);
+    for (i, e) in evs.iter().enumerate() {
+        let ctx = |m: String| format!("fraction limit {l} ({}), point {p}/{t}, call {i} [{}]: {m}", if machine_limit { "machine" } else { "framework" }, fmt_events(std::slice::from_ref(e)));
+        ls.call(std::slice::from_ref(e), start).map_err(|(s, m)| (s, ctx(m)))?;
+    }
+    out.bump("fraction_limits_driven_to_a_point_where_quotient_and_product_disagree");
+    Ok(())
 }
 
 #[allow(clippy::too_many_arguments)]
